@@ -31,6 +31,7 @@ CONSTANTS N, GateSize, MaxFailures, MaxAttempts, Variant,
           UseCache,
           ForeignCached,          \* names the shared cache holds under ANOTHER store's prefix
           CacheKeyIgnoresPrefix,  \* TRUE: a (mutant) cache key without the store prefix
+          PublishEarly,           \* TRUE: a (mutant) worker hands the node to the cache before its write has completed
           WithReader
 
 Nodes == 1..N
@@ -122,7 +123,8 @@ Done(n) == /\ wst' = [wst EXCEPT ![n] = "done"] /\ tokens' = tokens + 1 /\ wg' =
 WCheck(n) == /\ wst[n] = "spawned"
              /\ IF firstErr THEN Done(n)                              \* an earlier write failed: do not even try
                 ELSE /\ wst' = [wst EXCEPT ![n] = "storing"] /\ U(<<tokens, wg>>)
-             /\ U(MainVars) /\ U(<<chan, dpc, df, firstErr, failedNow>>) /\ U(EnvVars) /\ U(PubVars)
+             /\ cache' = IF PublishEarly /\ UseCache /\ ~firstErr THEN cache \cup {n} ELSE cache
+             /\ U(MainVars) /\ U(<<chan, dpc, df, firstErr, failedNow>>) /\ U(<<store, failsLeft>>) /\ U(PubVars)
 WStoreOk(n) == /\ wst[n] = "storing"
                /\ store' = store \cup {n}
                /\ wst' = [wst EXCEPT ![n] = "stored"]
@@ -166,6 +168,8 @@ NoSkipAcrossStores == \A n \in Nodes: (n \in ForeignCached /\ result = "ok") => 
 GateRespected == Cardinality({n \in Nodes: wst[n] \in {"spawned", "storing", "stored"}}) <= GateSize
 Termination == <>(mpc = "returned")
 \* C11 (publication)
+\* what this store's flushes have put into the shared cache is in the store: other trees skip the write of a node they find there
+CacheImpliesStored == cache \subseteq store
 PublishedObjectsAreFrozen == writtenAfterPub = {}
 NoInPlaceEditOfPublished == inPlaceEdit = {}
 =============================================================================
